@@ -254,10 +254,11 @@ export class RangeListManager {
         const item = items[i]!
         const index = indexes === null ? i : indexes[i]!
         const oldIndex = oldIndexes === null ? i : oldIndexes[i]!
-        const u =
-          updatePathTree === true || updatePathTree === undefined
-            ? updatePathTree
-            : (updatePathTree as { [key: string]: UpdatePathTreeNode })[index]
+        // (in an object list the node at this position may have shown another field: then it is updated as a whole)
+        let u: UpdatePathTreeRoot
+        if (index !== oldIndex) u = true
+        else if (updatePathTree === true || updatePathTree === undefined) u = updatePathTree
+        else u = (updatePathTree as { [key: string]: UpdatePathTreeNode })[index]
         updateListItem(
           item,
           index,
